@@ -99,6 +99,37 @@ def LABEL(i):
     return d
 
 
+LABNAMES = ['???', 'V1', 'a<b&"c\'>', 'ünï 中', 'area 4', 'MT+', '0', 'x' * 40]
+
+
+def LABNAME(i):
+    return LABNAMES[i % len(LABNAMES)] + ('' if i < len(LABNAMES) else str(i))
+
+
+def COL(c):
+    """colour component from its JSON form [type, float.hex()]: the SAME binary64 value given as a Python float,
+    a Python int (0/1 only), a numpy float32 (value representable) or a numpy float64"""
+    ty, hx = c
+    v = float.fromhex(hx)
+    if ty == 'i':
+        return int(v)
+    if ty == 'f32':
+        return np.float32(v)
+    if ty == 'f64':
+        return np.float64(v)
+    return v
+
+
+def col_bits(x):
+    import struct
+    return struct.unpack('<Q', struct.pack('<d', float(x)))[0]
+
+
+def RICHTABLE(tab):
+    """label table {key: (name, rgba)} from its JSON form [[key, labname_id, [c, c, c, c]], ...]"""
+    return {int(k): (LABNAME(nm), tuple(COL(c) for c in cols)) for k, nm, cols in tab}
+
+
 def VOXSET(i):
     if i == 0:
         return np.zeros((0, 3), dtype=int)
@@ -116,6 +147,16 @@ def VERTDICT(i):
 
 
 def AFFINE(i):
+    if i >= 12:
+        # oblique "scanner" affines: entries that need many digits, small off-diagonal terms, large offsets
+        r = np.random.RandomState(i)
+        th = [0.0123456789, 0.3, 1e-3][i % 3]
+        c, s_ = np.cos(th), np.sin(th)
+        a = np.eye(4)
+        a[:3, :3] = np.array([[c, -s_, 0.0], [s_, c, 0.0], [0.0, 0.0, 1.0]]) @ np.diag([2.0, 1.0 / 3.0, -1.7])
+        a[0, 2] = 1.2345678e-3 * (1 + i % 5)
+        a[:3, 3] = r.uniform(-130, 130, 3)
+        return a
     a = np.eye(4)
     a[0, 0] = 1.0 + 0.5 * i
     a[1, 1] = 2.0
@@ -157,6 +198,7 @@ _R_VOX = _rev(VOXSET, _canon_vox)
 _R_VERT = _rev(VERTDICT, _canon_vert)
 _R_STRUCT = {s: i for i, s in enumerate(STRUCTS)}
 _R_AFF = {tuple(AFFINE(i).ravel()): i for i in range(12)}
+RICH_AFFINES = list(range(12, 24))
 VOX_IDS = VERT_IDS = list(range(NID))
 # names that the XML layer does not preserve (see PENDING_FINDINGS): kept out of the round-trip streams
 XML_UNSAFE_NAMES = [i for i in range(NID) if NAME(i) != NAME(i).strip() or NAME(i) == '']
@@ -451,6 +493,27 @@ def build_rich_axis(spec):
             [(NAME(nm), bm[np.array(sel, dtype=int)]) for nm, sel in spec['parcels']])
     if t == 'perturb':
         return perturb_axis(build_rich_axis(spec['base']), spec['p'])
+    if t == 'label':
+        return ax.LabelAxis([NAME(i) for i in spec['name']], [RICHTABLE(tb) for tb in spec['tables']],
+                            [META(i) for i in spec['meta']])
+    if t == 'hist':
+        # an axis with a HISTORY: indexing / concatenation steps applied before it is serialised.  A step that the
+        # axis refuses (incompatible operands, empty brain-model selection) or that would leave an empty axis is
+        # skipped, so every spec denotes a non-empty axis.
+        r = build_rich_axis(spec['base'])
+        for st in spec['steps']:
+            try:
+                if 'idx' in st:
+                    q = r[py_index(st['idx'])]
+                elif 'add' in st:
+                    q = r + build_rich_axis(st['add'])
+                else:
+                    q = build_rich_axis(st['radd']) + r
+            except (ValueError, IndexError):
+                continue
+            if isinstance(q, ax.Axis) and len(q) > 0:
+                r = q
+        return r
     raise ValueError(t)
 
 
@@ -490,6 +553,13 @@ def perturb_axis(a, p):
                 key = sorted(label[j])[k % len(label[j])]
                 nm_, rgba = label[j][key]
                 label[j][key] = (nm_, (rgba[0], rgba[1], rgba[2], 0.75 if rgba[3] != 0.75 else 0.25))
+            elif what == 'label-colour-ulp' and kind == 'la' and label[j]:
+                # the smallest possible colour difference: one component moved by one ulp
+                key = sorted(label[j])[k % len(label[j])]
+                nm_, rgba = label[j][key]
+                x = float(rgba[k % 4])
+                y = float(np.nextafter(x, 0.0 if x > 0.5 else 1.0))
+                label[j][key] = (nm_, tuple(y if i_ == k % 4 else v for i_, v in enumerate(rgba)))
             elif what == 'label-drop' and kind == 'la' and len(label[j]) > 1:
                 label[j].pop(sorted(label[j])[-1])
         return ax.ScalarAxis(name, meta) if kind == 'sc' else ax.LabelAxis(name, label, meta)
@@ -557,7 +627,7 @@ def perturb_axis(a, p):
 PERTURBATIONS = {
     'ser': ['start', 'step', 'size', 'unit', 'none'],
     'sc': ['name', 'meta', 'meta-drop', 'none'],
-    'la': ['name', 'meta', 'meta-drop', 'label', 'label-colour', 'label-drop', 'none'],
+    'la': ['name', 'meta', 'meta-drop', 'label', 'label-colour', 'label-colour-ulp', 'label-drop', 'none'],
     'pa': ['name', 'add-struct', 'add-struct', 'drop-struct', 'vertex', 'voxel', 'voxel-drop', 'nvertices', 'affine',
            'none'],
     'bm': ['index', 'nvertices', 'affine', 'struct', 'drop-last', 'none'],
@@ -570,8 +640,10 @@ def axis_kind(axis):
             ax.BrainModelAxis: 'bm'}[type(axis)]
 
 
-def describe(axis):
-    """full canonical, id-free description of an axis (used to compare axes without relying on __eq__)"""
+def describe(axis, with_affine=True):
+    """full canonical, id-free description of an axis (used to compare axes without relying on __eq__);
+    `with_affine=False` leaves the affine out (the round-trip oracle compares it with np.allclose, the equality
+    nibabel documents for affines: the XML text keeps 10 decimals)"""
     k = axis_kind(axis)
     if k == 'ser':
         return ('ser', float(axis.start), float(axis.step), int(axis.size), axis.unit)
@@ -591,7 +663,10 @@ def describe(axis):
         has_vox = (k == 'bm' and bool(axis.volume_mask.any())) or \
                   (k == 'pa' and any(len(v) for v in axis.voxels))
         if has_vox or k == 'pa':
-            out.append(None if axis.affine is None else tuple(np.asarray(axis.affine, dtype=float).ravel()))
+            if with_affine:
+                out.append(None if axis.affine is None else tuple(np.asarray(axis.affine, dtype=float).ravel()))
+            else:
+                out.append(axis.affine is None)
             out.append(None if axis.volume_shape is None else tuple(int(x) for x in axis.volume_shape))
     return tuple(out)
 
@@ -855,8 +930,11 @@ def oracle_roundtrip(case, out):
             return f'axis {i}: type {type(b).__name__} after round trip, was {type(a).__name__}'
         if len(a) != len(b):
             return f'axis {i}: length {len(b)} after round trip, was {len(a)}'
-        if describe(a) != describe(b):
-            return f'axis {i} ({axis_kind(a)}): description changed by the {d["op"]} round trip'
+        if describe(a, False) != describe(b, False):
+            return f'axis {i} ({axis_kind(a)}): description changed by the {d["op"]} round trip' + _first_diff(a, b)
+        if getattr(a, 'affine', None) is not None and getattr(b, 'affine', None) is not None and \
+                not np.allclose(np.asarray(a.affine, dtype=float), np.asarray(b.affine, dtype=float)):
+            return f'axis {i} ({axis_kind(a)}): affine changed by the {d["op"]} round trip beyond np.allclose'
         if not (b == a) or not (a == b):
             return f'axis {i} ({axis_kind(a)}): header.get_axis(i) != axes[i] after the {d["op"]} round trip'
     if d['op'] in ('file', 'file2'):
@@ -869,6 +947,19 @@ def oracle_roundtrip(case, out):
         if ex['ecodes'].count(32) != 1:
             return f'{ex["ecodes"].count(32)} extensions with code 32 in the saved file (want exactly 1)'
     return None
+
+
+def _first_diff(a, b):
+    """short human-readable pointer to the first differing item of two axis descriptions"""
+    da, db = describe(a, False), describe(b, False)
+    for x, y in zip(da, db):
+        if x != y:
+            if isinstance(x, tuple) and isinstance(y, tuple):
+                for u, v in zip(x, y):
+                    if u != v:
+                        return ': %s -> %s' % (repr(u)[:160], repr(v)[:160])
+            return ': %s -> %s' % (repr(x)[:160], repr(y)[:160])
+    return ''
 
 
 def signature(case, what):
@@ -884,7 +975,9 @@ def signature(case, what):
                 names.extend(NAME(i) for i in sp['d']['name'])
             elif sp['t'] == 'parcels':
                 names.extend(NAME(nm) for nm, _ in sp['parcels'])
-            elif sp['t'] == 'perturb':
+            elif sp['t'] == 'label':
+                names.extend(NAME(i) for i in sp['name'])
+            elif sp['t'] in ('perturb', 'hist'):
                 collect(sp['base'])
         for sp in d['axes']:
             collect(sp)
@@ -1070,7 +1163,7 @@ def rand_rich_bm(rng):
     structs = rng.sample(range(len(STRUCTS)), nstruct)
     parts = []
     surf = {s: rng.random() < 0.5 for s in structs}
-    nvert = {s: rng.choice([4, 6, 9]) for s in structs}
+    nvert = {s: rng.choice([4, 6, 9, 9, 32492]) for s in structs}
     for _ in range(rng.choice([1, 2, 3, 4])):
         s = rng.choice(structs)
         if surf[s]:
@@ -1079,8 +1172,93 @@ def rand_rich_bm(rng):
         else:
             allv = [[i, j, k] for i in range(shape[0]) for j in range(shape[1]) for k in range(shape[2])]
             parts.append({'surf': False, 's': s, 'voxels': rng.sample(allv, rng.randrange(1, 6))})
-    spec = {'t': 'bm', 'parts': parts, 'shape': shape, 'aff': rng.randrange(3), 'perm': None}
+    spec = {'t': 'bm', 'parts': parts, 'shape': shape,
+            'aff': rng.randrange(3) if rng.random() < 0.6 else rng.choice(RICH_AFFINES), 'perm': None}
     return spec
+
+
+def rand_colour(rng):
+    """one RGBA component in [0, 1] as [type, hex]: hand-typed, 8-bit palette n/255, random 53-bit floats, float32
+    values, tiny / denormal / just-below-1 values, -0.0, ints"""
+    r = rng.random()
+    if r < 0.2:
+        return ['f', rng.choice([0.0, 1.0, 0.5, 0.25, 0.2, 0.43, 0.125]).hex()]
+    if r < 0.5:
+        return ['f', (rng.randrange(256) / 255).hex()]
+    if r < 0.7:
+        return ['f', rng.random().hex()]
+    if r < 0.78:
+        return ['f32', float(np.float32(rng.random())).hex()]
+    if r < 0.84:
+        return ['f64', rng.choice([rng.random(), rng.randrange(256) / 255]).hex()]
+    if r < 0.9:
+        return ['f', rng.choice([5e-324, 1e-7 * rng.random(), 2.0 ** -rng.randrange(1, 60), 1 - 2.0 ** -53,
+                                 1 / 3, 2 / 3, 0.1 + 0.2, 1e-5, 0.30000000000000004, -0.0]).hex()]
+    return ['i', float(rng.choice([0, 1])).hex()]
+
+
+def rand_table(rng, nonempty=True):
+    n = rng.choice([1, 1, 2, 3, 4, 6]) if nonempty else rng.choice([0, 1, 2])
+    keys = rng.sample([0, 0, 1, 2, 3, 4, 5, 7, 12, 100, 255, 1000, -1, -7, 2 ** 31, 2 ** 40], min(n, 8))
+    keys = list(dict.fromkeys(keys))
+    if rng.random() < 0.5:
+        keys.sort()
+    return [[k, rng.randrange(2 * len(LABNAMES)), [rand_colour(rng) for _ in range(4)]] for k in keys]
+
+
+def rand_rich_label(rng, n=None):
+    n = n or rng.randrange(1, 5)
+    tables = [rand_table(rng) for _ in range(n)]
+    if n > 1 and rng.random() < 0.3:
+        tables[-1] = tables[0]
+    return {'t': 'label', 'name': rand_ids(rng, n, XML_SAFE_NAMES), 'tables': tables,
+            'meta': rand_ids(rng, n, list(range(NID)))}
+
+
+def rand_series_value(rng):
+    r = rng.random()
+    if r < 0.3:
+        return rng.choice([0.0, 0.5, -3.25, 10, 0.72, 1, 2.5, -0.125])
+    if r < 0.5:
+        return rng.randint(-1000, 1000)
+    if r < 0.8:
+        return rng.choice([1, -1]) * rng.random() * 10.0 ** rng.randint(-8, 8)
+    return rng.choice([1 / 3, 0.1 + 0.2, 1e-7 / 3, 123456.789012345, 2 ** 53 + 2.0, 1e22, 5e-324, 0.7200000000000001])
+
+
+def rand_hist(rng, base=None):
+    """an axis with a history (see build_rich_axis 'hist'): 1-3 index / concatenation steps on a rich axis"""
+    if base is None:
+        r = rng.random()
+        if r < 0.45:
+            bm = rand_rich_bm(rng)
+            n = rich_len(bm)
+            base = {'t': 'parcels', 'bm': bm,
+                    'parcels': [[rng.choice(XML_SAFE_NAMES), [rng.randrange(n) for _ in range(rng.randrange(1, 4))]]
+                                for _ in range(rng.randrange(2, 7))]}
+        elif r < 0.7:
+            base = rand_rich_bm(rng)
+        elif r < 0.8:
+            base = rand_rich_label(rng, rng.randrange(2, 6))
+        elif r < 0.9:
+            base = {'t': 'raw', 'd': rand_listaxis(rng, 'sc', rng.randrange(2, 6), XML_SAFE_NAMES)}
+        else:
+            base = {'t': 'series', 'start': rand_series_value(rng), 'step': rand_series_value(rng) or 1,
+                    'size': rng.randrange(2, 8), 'unit': rng.randrange(4)}
+    n = rich_len(base)
+    steps = []
+    for _ in range(rng.choice([1, 1, 2, 3])):
+        r = rng.random()
+        if r < 0.6 or base['t'] == 'series' and r < 0.8:
+            ix = rand_index(rng, n)
+            if base['t'] == 'series' or rng.random() < 0.3:
+                ix = {'t': 's', 'v': [rng.choice(bounds(n)), rng.choice(bounds(n)), rng.choice(STEPS)]}
+            steps.append({'idx': ix})
+        else:
+            # concatenate with a piece of the same axis (compatible by construction): full[:k] + full[j:] ...
+            piece = {'t': 'hist', 'base': base, 'steps': [{'idx': rand_index(rng, n)}]}
+            steps.append({rng.choice(['add', 'add', 'radd']): piece})
+    return {'t': 'hist', 'base': base, 'steps': steps}
 
 
 def rich_len(spec):
@@ -1091,6 +1269,10 @@ def rich_len(spec):
     if spec['t'] == 'bm':
         n = sum(len(p['vertices']) if p['surf'] else len(p['voxels']) for p in spec['parts'])
         return n if spec.get('perm') is None else len(spec['perm'])
+    if spec['t'] == 'label':
+        return len(spec['name'])
+    if spec['t'] in ('hist', 'perturb'):
+        return rich_len(spec['base'])         # an estimate only (used to draw plausible indices)
     return len(spec['parcels'])
 
 
@@ -1109,15 +1291,22 @@ def rand_rich_axis(rng):
                    for _ in range(rng.randrange(1, 5))]
         return {'t': 'parcels', 'bm': bm, 'parcels': parcels}
     if r < 0.6:
-        if rng.random() < 0.5:
+        q = rng.random()
+        if q < 0.35:
             return {'t': 'series', 'start': rng.choice([0.0, 0.5, -3.25, 10]), 'step': rng.choice([0.72, 1, 2.5, -0.125]),
+                    'size': rng.randrange(1, 7), 'unit': rng.randrange(4)}
+        if q < 0.65:
+            # start/step that need all 17 significant digits, exponents, large and tiny magnitudes
+            return {'t': 'series', 'start': rand_series_value(rng), 'step': rand_series_value(rng),
                     'size': rng.randrange(1, 7), 'unit': rng.randrange(4)}
         return {'t': 'series', 'start': rng.randint(-5, 5), 'step': rng.randint(1, 4), 'size': rng.randrange(1, 7),
                 'unit': rng.randrange(4)}
-    if r < 0.75:
+    if r < 0.72:
         return {'t': 'raw', 'd': rand_listaxis(rng, 'sc', rng.randrange(1, 6), XML_SAFE_NAMES)}
-    if r < 0.9:
+    if r < 0.78:
         return {'t': 'raw', 'd': rand_listaxis(rng, 'la', rng.randrange(1, 6), XML_SAFE_NAMES)}
+    if r < 0.9:
+        return rand_rich_label(rng)
     d = rand_bm(rng, n=rng.randrange(1, 9), valid=True)
     return {'t': 'raw', 'd': d}
 
@@ -1128,6 +1317,10 @@ def rand_near_pair(rng, kind=None):
     if kind == 'ser':
         base = {'t': 'series', 'start': rng.choice([0, 0.5, -3.25, 10]), 'step': rng.choice([0.72, 1, 2.5]),
                 'size': rng.randrange(1, 6), 'unit': rng.randrange(4)}
+        if rng.random() < 0.3:
+            base.update(start=rand_series_value(rng), step=rand_series_value(rng))
+    elif kind == 'la' and rng.random() < 0.6:
+        base = rand_rich_label(rng)
     elif kind in ('sc', 'la'):
         base = {'t': 'raw', 'd': rand_listaxis(rng, kind, rng.randrange(1, 5), XML_SAFE_NAMES)}
     elif kind == 'pa':
@@ -1230,12 +1423,18 @@ def cases(rng, tier):
             axes[1] = axes[0]          # equal axes share one MatrixIndicesMap
         if k > 2 and rng.random() < 0.25:
             axes[2] = axes[rng.randrange(2)]
+        if rng.random() < 0.3:          # one axis is the result of earlier indexing / concatenation
+            j = rng.randrange(k)
+            axes[j] = rand_hist(rng, axes[j] if rng.random() < 0.3 else None)
         out.append(mk_case({'op': 'xml', 'axes': axes, 'stream': 'xml'}, 'xml'))
     for _ in range({'quick': 500, 'thorough': 6000, 'search': 800}[tier]):
         k = rng.choice([2, 2, 2, 3])
         axes = [rand_rich_axis(rng) for _ in range(k)]
         if rng.random() < 0.25:
             axes[1] = axes[0]
+        if rng.random() < 0.3:
+            j = rng.randrange(k)
+            axes[j] = rand_hist(rng, axes[j] if rng.random() < 0.3 else None)
         out.append(mk_case({'op': 'file', 'axes': axes, 'dseed': rng.randrange(10 ** 6), 'stream': 'file'}, 'file'))
     # ---- near-duplicate axes in one header (to_header shares a map when `ax in axes[:dim]`), both orders
     for _ in range({'quick': 1200, 'thorough': 12000, 'search': 2000}[tier]):
